@@ -190,6 +190,14 @@ def discharge_all(obs, mv):
     if len(pending) < PAR_MIN or ncpu < 4 or os.environ.get('VERIF_SERIAL'):
         for ob in obs: discharge(ob, mv)
         return
+    # adaptive: a sample decided in this process tells whether the queries are heavy enough to be worth shipping to workers
+    t0 = time.time(); sample = pending[:30]
+    for ob in sample: discharge(ob, mv)
+    if (time.time() - t0) / max(1, len(sample)) * (len(pending) - len(sample)) < 8.0:      # the rest would take < 8 s here
+        for ob in obs:
+            if ob.result is None: discharge(ob, mv)
+        return
+    pending = pending[30:]
     texts = []
     for ob in pending:
         so = z3.Solver(); so.add(*ob.pc); so.add(z3.Not(ob.claim)); texts.append(so.to_smt2())
@@ -206,7 +214,7 @@ def discharge_all(obs, mv):
         if r == 'unsat':
             ob.result = 'discharged'; ob.backend = 'z3-' + z3.get_version_string() + ' (worker process, SMT-LIB)'; ob.ms = ms; done.add(id(ob))
     for ob in obs:
-        if id(ob) not in done: discharge(ob, mv)
+        if id(ob) not in done and ob.result is None: discharge(ob, mv)
 
 
 def _pyval(t):
